@@ -46,6 +46,8 @@ fn c05_nopanic_cursor_to() {
     let mut out = Sink::new();
     let r = enc.encode(&mut out, TerminalCommand::CursorTo(Position { row: kani::any(), col: kani::any() }));
     assert!(r.is_ok());
+    std::mem::forget(r);
+    std::mem::forget(enc);
     kani::cover!(true);
 }
 
@@ -57,6 +59,8 @@ fn c05_nopanic_cursor_move() {
     let mut out = Sink::new();
     let r = enc.encode(&mut out, TerminalCommand::CursorMove { row: kani::any(), col: kani::any() });
     assert!(r.is_ok());
+    std::mem::forget(r);
+    std::mem::forget(enc);
     kani::cover!(true);
 }
 
@@ -68,6 +72,8 @@ fn c05_nopanic_scroll() {
     let mut out = Sink::new();
     let r = enc.encode(&mut out, TerminalCommand::Scroll(kani::any()));
     assert!(r.is_ok());
+    std::mem::forget(r);
+    std::mem::forget(enc);
     kani::cover!(true);
 }
 
@@ -79,6 +85,8 @@ fn c05_nopanic_scroll_region() {
     let mut out = Sink::new();
     let r = enc.encode(&mut out, TerminalCommand::ScrollRegion { start: kani::any(), end: kani::any() });
     assert!(r.is_ok());
+    std::mem::forget(r);
+    std::mem::forget(enc);
     kani::cover!(true);
 }
 
@@ -90,6 +98,8 @@ fn c05_nopanic_erase_chars() {
     let mut out = Sink::new();
     let r = enc.encode(&mut out, TerminalCommand::EraseChars(kani::any()));
     assert!(r.is_ok());
+    std::mem::forget(r);
+    std::mem::forget(enc);
     kani::cover!(true);
 }
 
@@ -101,6 +111,8 @@ fn c05_nopanic_dec_mode_set() {
     let mut out = Sink::new();
     let r = enc.encode(&mut out, TerminalCommand::DecModeSet { enable: kani::any(), mode: any_mode() });
     assert!(r.is_ok());
+    std::mem::forget(r);
+    std::mem::forget(enc);
     kani::cover!(true);
 }
 
@@ -112,6 +124,8 @@ fn c05_nopanic_dec_mode_get() {
     let mut out = Sink::new();
     let r = enc.encode(&mut out, TerminalCommand::DecModeGet(any_mode()));
     assert!(r.is_ok());
+    std::mem::forget(r);
+    std::mem::forget(enc);
     kani::cover!(true);
 }
 
@@ -123,6 +137,8 @@ fn c05_nopanic_keyboard_level() {
     let mut out = Sink::new();
     let r = enc.encode(&mut out, TerminalCommand::KeyboardLevel(kani::any()));
     assert!(r.is_ok());
+    std::mem::forget(r);
+    std::mem::forget(enc);
     kani::cover!(true);
 }
 
@@ -134,6 +150,8 @@ fn c05_nopanic_color_query() {
     let mut out = Sink::new();
     let r = enc.encode(&mut out, TerminalCommand::Color { name: TerminalColor::Palette(kani::any()), color: None });
     assert!(r.is_ok());
+    std::mem::forget(r);
+    std::mem::forget(enc);
     kani::cover!(true);
 }
 
@@ -144,7 +162,10 @@ fn c05_literal_cursor_get() {
     let mut enc = TTYEncoder::new(any_caps());
     let mut out = Sink::new();
     let want: &[u8] = b"\x1b[6n";
-    assert!(enc.encode(&mut out, TerminalCommand::CursorGet).is_ok());
+    let res = enc.encode(&mut out, TerminalCommand::CursorGet);
+    assert!(res.is_ok());
+    std::mem::forget(res);
+    std::mem::forget(enc); // keep CBMC out of the drop glue (Vec/Error)
     assert!(out.fmt_calls == 0 && out.len == want.len());
     let mut i = 0;
     while i < want.len() { assert!(out.bytes[i] == want[i]); i += 1; }
@@ -158,7 +179,10 @@ fn c05_literal_cursor_save() {
     let mut enc = TTYEncoder::new(any_caps());
     let mut out = Sink::new();
     let want: &[u8] = b"\x1b7";
-    assert!(enc.encode(&mut out, TerminalCommand::CursorSave).is_ok());
+    let res = enc.encode(&mut out, TerminalCommand::CursorSave);
+    assert!(res.is_ok());
+    std::mem::forget(res);
+    std::mem::forget(enc); // keep CBMC out of the drop glue (Vec/Error)
     assert!(out.fmt_calls == 0 && out.len == want.len());
     let mut i = 0;
     while i < want.len() { assert!(out.bytes[i] == want[i]); i += 1; }
@@ -172,7 +196,10 @@ fn c05_literal_cursor_restore() {
     let mut enc = TTYEncoder::new(any_caps());
     let mut out = Sink::new();
     let want: &[u8] = b"\x1b8";
-    assert!(enc.encode(&mut out, TerminalCommand::CursorRestore).is_ok());
+    let res = enc.encode(&mut out, TerminalCommand::CursorRestore);
+    assert!(res.is_ok());
+    std::mem::forget(res);
+    std::mem::forget(enc); // keep CBMC out of the drop glue (Vec/Error)
     assert!(out.fmt_calls == 0 && out.len == want.len());
     let mut i = 0;
     while i < want.len() { assert!(out.bytes[i] == want[i]); i += 1; }
@@ -186,7 +213,10 @@ fn c05_literal_erase_line_right() {
     let mut enc = TTYEncoder::new(any_caps());
     let mut out = Sink::new();
     let want: &[u8] = b"\x1b[K";
-    assert!(enc.encode(&mut out, TerminalCommand::EraseLineRight).is_ok());
+    let res = enc.encode(&mut out, TerminalCommand::EraseLineRight);
+    assert!(res.is_ok());
+    std::mem::forget(res);
+    std::mem::forget(enc); // keep CBMC out of the drop glue (Vec/Error)
     assert!(out.fmt_calls == 0 && out.len == want.len());
     let mut i = 0;
     while i < want.len() { assert!(out.bytes[i] == want[i]); i += 1; }
@@ -200,7 +230,10 @@ fn c05_literal_erase_line_left() {
     let mut enc = TTYEncoder::new(any_caps());
     let mut out = Sink::new();
     let want: &[u8] = b"\x1b[1K";
-    assert!(enc.encode(&mut out, TerminalCommand::EraseLineLeft).is_ok());
+    let res = enc.encode(&mut out, TerminalCommand::EraseLineLeft);
+    assert!(res.is_ok());
+    std::mem::forget(res);
+    std::mem::forget(enc); // keep CBMC out of the drop glue (Vec/Error)
     assert!(out.fmt_calls == 0 && out.len == want.len());
     let mut i = 0;
     while i < want.len() { assert!(out.bytes[i] == want[i]); i += 1; }
@@ -214,7 +247,10 @@ fn c05_literal_erase_line() {
     let mut enc = TTYEncoder::new(any_caps());
     let mut out = Sink::new();
     let want: &[u8] = b"\x1b[2K";
-    assert!(enc.encode(&mut out, TerminalCommand::EraseLine).is_ok());
+    let res = enc.encode(&mut out, TerminalCommand::EraseLine);
+    assert!(res.is_ok());
+    std::mem::forget(res);
+    std::mem::forget(enc); // keep CBMC out of the drop glue (Vec/Error)
     assert!(out.fmt_calls == 0 && out.len == want.len());
     let mut i = 0;
     while i < want.len() { assert!(out.bytes[i] == want[i]); i += 1; }
@@ -228,7 +264,10 @@ fn c05_literal_erase_screen() {
     let mut enc = TTYEncoder::new(any_caps());
     let mut out = Sink::new();
     let want: &[u8] = b"\x1b[2J";
-    assert!(enc.encode(&mut out, TerminalCommand::EraseScreen).is_ok());
+    let res = enc.encode(&mut out, TerminalCommand::EraseScreen);
+    assert!(res.is_ok());
+    std::mem::forget(res);
+    std::mem::forget(enc); // keep CBMC out of the drop glue (Vec/Error)
     assert!(out.fmt_calls == 0 && out.len == want.len());
     let mut i = 0;
     while i < want.len() { assert!(out.bytes[i] == want[i]); i += 1; }
@@ -242,7 +281,10 @@ fn c05_literal_face_get() {
     let mut enc = TTYEncoder::new(any_caps());
     let mut out = Sink::new();
     let want: &[u8] = b"\x1bP$qm\x1b\\";
-    assert!(enc.encode(&mut out, TerminalCommand::FaceGet).is_ok());
+    let res = enc.encode(&mut out, TerminalCommand::FaceGet);
+    assert!(res.is_ok());
+    std::mem::forget(res);
+    std::mem::forget(enc); // keep CBMC out of the drop glue (Vec/Error)
     assert!(out.fmt_calls == 0 && out.len == want.len());
     let mut i = 0;
     while i < want.len() { assert!(out.bytes[i] == want[i]); i += 1; }
@@ -256,7 +298,10 @@ fn c05_literal_reset() {
     let mut enc = TTYEncoder::new(any_caps());
     let mut out = Sink::new();
     let want: &[u8] = b"\x1bc";
-    assert!(enc.encode(&mut out, TerminalCommand::Reset).is_ok());
+    let res = enc.encode(&mut out, TerminalCommand::Reset);
+    assert!(res.is_ok());
+    std::mem::forget(res);
+    std::mem::forget(enc); // keep CBMC out of the drop glue (Vec/Error)
     assert!(out.fmt_calls == 0 && out.len == want.len());
     let mut i = 0;
     while i < want.len() { assert!(out.bytes[i] == want[i]); i += 1; }
@@ -271,7 +316,10 @@ fn c05_face_modify_gray_underline_color_only() {
     let mut enc = TTYEncoder::new(caps);
     let mut out = Sink::new();
     let m = FaceModify { underline_color: Some(RGBA::new(kani::any(), kani::any(), kani::any(), 255)), ..FaceModify::default() };
-    assert!(enc.encode(&mut out, TerminalCommand::FaceModify(m)).is_ok());
+    let res = enc.encode(&mut out, TerminalCommand::FaceModify(m));
+    assert!(res.is_ok());
+    std::mem::forget(res);
+    std::mem::forget(enc); // keep CBMC out of the drop glue (Vec/Error)
     assert!(out.len == 0 && out.fmt_calls == 0);
     kani::cover!(true);
 }
@@ -336,7 +384,10 @@ fn c05_face_attrs_sgr() {
     let mut out = Sink::new();
     let attrs = any_attrs();
     let face = Face { fg: None, bg: None, attrs };
-    assert!(enc.encode(&mut out, TerminalCommand::Face(face)).is_ok());
+    let res = enc.encode(&mut out, TerminalCommand::Face(face));
+    assert!(res.is_ok());
+    std::mem::forget(res);
+    std::mem::forget(enc); // keep CBMC out of the drop glue (Vec/Error)
     assert!(out.fmt_calls == 0 && out.len < 48);
     let s = parse_sgr(&out.bytes, out.len);
     assert!(s.well_formed);
@@ -367,7 +418,10 @@ fn c05_face_modify_attrs_sgr() {
         4 => Some(UnderlineStyle::Curly), 5 => Some(UnderlineStyle::Dotted), _ => Some(UnderlineStyle::Dashed) };
     let m = FaceModify { reset: kani::any(), fg: None, bg: None, underline, underline_color: None,
         bold: any_opt_bool(), italic: any_opt_bool(), blink: any_opt_bool(), strike: any_opt_bool() };
-    assert!(enc.encode(&mut out, TerminalCommand::FaceModify(m)).is_ok());
+    let res = enc.encode(&mut out, TerminalCommand::FaceModify(m));
+    assert!(res.is_ok());
+    std::mem::forget(res);
+    std::mem::forget(enc); // keep CBMC out of the drop glue (Vec/Error)
     assert!(out.fmt_calls == 0 && out.len < 48);
     let empty = !m.reset && m.underline.is_none() && m.bold.is_none() && m.italic.is_none() && m.blink.is_none() && m.strike.is_none();
     if empty {
